@@ -65,7 +65,7 @@ CHECKS = {
             "BOUNDED, not proved: complete for the stated sizes (all real end-points, all t, all k) and sampled beyond. No loop invariant for the Bubenik-Dlotko sweep is within reach of the VC generator (k-th largest over a positionally mutated bag), so no contract-level proof is claimed. Proved for all inputs only: the constructor uses dgms[hom_deg]. The known repeated-bar shortcut defect is attributed by a trace that requires every execution of the shortcut to be matched by a bar genuinely repeated in the work list.",
             "CPython + pysym proxies; z3; sizes bounded (3 bars exhaustive); slopes of landscape functions in {-1,0,1} used to keep queries linear"),
     "C08": ("other",
-            "contracts on death_vector and PersistenceLandscaper.transform (VCs from the AST, modular constructor) + bounded-symbolic execution (E2) of the real PersLandscapeApprox.compute_landscape on proxy reals for <=2 bars x <=6 nodes with the half-step bound checked per path by z3; run-time grids up to 50 nodes",
+            "contracts on death_vector, PersistenceLandscaper.transform and PersLandscapeApprox.__init__ (diagram of the requested degree, finite bars only via mask-indexing facts, grid ends given-or-derived as min birth / max finite death) (VCs from the AST, modular compute_landscape) + bounded-symbolic execution (E2) of the real PersLandscapeApprox.compute_landscape on proxy reals for <=2 bars x <=6 nodes with the half-step bound checked per path by z3; run-time grids up to 50 nodes",
             "Mixed: proved for all inputs - death vector = deaths sorted non-increasingly with multiplicity (sorted() as contract D12), rejection of hom_deg != 0, the transformer returns exactly the values (flattened on request) of the approximate landscape built from its grid parameters and leaves its state untouched. Bounded - the half-step bound and exactness on grid end-points.",
             "D12 sorted, D13 interp, D14 linspace; L10 (snapping <= step/2, k-th largest 1-Lipschitz) paper argument; E2 bounds; known finding: 'empty' sentinel"),
     "C09": ("other",
@@ -77,7 +77,7 @@ CHECKS = {
             "Mixed with a known finding: proved - imager fits forget the past, fit_transform equals fit then transform in state and images, transforms leave the fitted state untouched and map collections in order, landscaper fit honours user-fixed ends and learns min birth / max death on a fresh transformer. Refuted on the unchanged tree (KNOWN-FINDING): a second landscaper fit keeps the first fit's grid. Call sequences are sampled.",
             "D21 sklearn mixin, D24 deepcopy; induction over call sequences is a meta-argument; level is `other` because the refit obligations are refuted (known finding), so discharged < obligations"),
     "C20": ("other",
-            "call-trace contracts on an abstract Axes/pyplot recorder for the real bottleneck_matching / wasserstein_matching (loop invariant over the ordered log of plot calls, enumeration facts), VCs from the AST; real Agg canvases with artists inspected for plot_diagrams, both matching plots and the 2-D landscape plots",
+            "call-trace contracts on an abstract Axes/pyplot recorder for the real bottleneck_matching / wasserstein_matching (loop invariant over the ordered log of plot calls, enumeration facts) and for plot_diagrams (one scatter per diagram at (birth, death) or (birth, death-birth), infinite deaths on a line strictly inside the y-limits, limits containing every finite coordinate, title / legend as requested, no store into the caller's arrays), VCs from the AST; real Agg canvases with artists inspected for plot_diagrams, both matching plots and the 2-D landscape plots",
             "Mixed: proved for all diagrams and all certificate-shaped matchings - exactly one ax.plot per row involving a point, in order, joining the two points or the point and its perpendicular foot ((b+d)/2,(b+d)/2) (NRA with h^2=1/2), the arg-max bottleneck row in the emphasised style, nothing drawn through pyplot's current axes, plot_diagrams invoked once on the same axes. plot_diagrams itself (scatter offsets, limits, infinity line, labels, legend) and the landscape plots are checked on real canvases only (bounded).",
             "D22 matplotlib call -> artist; matching rows integer-valued and in range (C06); arithmetic definedness assumed; generator, models, contracts trusted"),
     "C05": ("other",
